@@ -307,7 +307,8 @@ impl Emitter {
         let loc = self.push(ind, &attr_text);
         self.bench_locs.insert(uid, loc);
         if ignore_attr {
-            self.push(ind, "#[ignore]");
+            // Bare and `= "reason"` forms alternate.
+            self.push(ind, if uid % 4 == 0 { "#[ignore = \"not on this machine\"]" } else { "#[ignore]" });
         }
         let abi = if !uses_bencher && b.args.is_none() && !b.is_generic() && uid % 5 == 2 { "extern \"C\" " } else { "" };
         let body = if uses_bencher {
@@ -362,7 +363,7 @@ impl Emitter {
                 let loc = self.push(indent, &text);
                 self.group_locs.insert((path.clone(), sub.raw.clone()), loc);
                 if ignore_attr {
-                    self.push(indent, "#[ignore]");
+                    self.push(indent, if sub.raw.len() % 4 == 1 { "#[ignore = \"slow\"]" } else { "#[ignore]" });
                 }
             }
             self.push(indent, &format!("pub mod {} {{", sub.raw));
@@ -631,6 +632,8 @@ pub fn golden_spec() -> TwinSpec {
         })), None, None, None, Body::Bench),
         Item::Group(meta(&[k], "igmod", None, opt(|o| o.ignore = Some(true)))),
         bench(28, meta(&[k, "igmod"], "inside", None, None), None, None, None, Body::Bench),
+        // `#[ignore = "reason"]` form (uid divisible by 4).
+        bench(40, meta(&[k], "ignored_with_reason", None, opt(|o| o.ignore = Some(true))), None, None, None, Body::Bench),
     ]
     .into_iter()
     .collect::<Vec<_>>()
@@ -827,3 +830,76 @@ pub fn c17_groups(g: &mut Groups) {
     );
 
 }
+
+/// C15 at the macro level: which benchmarks run under no flag, `--ignored`
+/// and `--include-ignored`, with `ignore` written as an option of the divan
+/// attribute, as `#[ignore]` and as `#[ignore = "reason"]`, on functions and
+/// on group modules.
+pub fn c15_groups(g: &mut Groups) {
+    if !g.is_run() || g.ctx.shard != 0 {
+        return;
+    }
+    let ctx = g.ctx;
+    let built = match built(ctx) {
+        Ok(b) => b,
+        Err(e) => {
+            ctx.note(format!("INFRA: e3 programs unavailable: {e}"));
+            return;
+        }
+    };
+    let mut cases = Vec::new();
+    for k in 0..built.specs.len() {
+        for mode in ["", "--ignored", "--include-ignored"] {
+            cases.push(ProgCase { program: k, mode: mode.to_string() });
+        }
+    }
+    g.enumerate_local("macro_programs_ignore", cases, |c: &ProgCase| {
+        let spec = &built.specs[c.program];
+        let flag: u8 = match c.mode.as_str() {
+            "--ignored" => 1,
+            "--include-ignored" => 2,
+            _ => 0,
+        };
+        let mut args = vec!["--test"];
+        if !c.mode.is_empty() {
+            args.push(&c.mode);
+        }
+        let run = run_prog(&built.exes[c.program].0, &args, &[], &format!("c15-{}", std::process::id()));
+        if run.code != 0 {
+            return Verdict::fail("macro:exit", format!("exit code {} for {args:?}: {}", run.code, run.stderr));
+        }
+        let tree = twinref::build(spec);
+        let cases = twinref::cases(&tree);
+        let default = OptSpec::default();
+        let runs = |ignored: bool| match flag {
+            0 => !ignored,
+            1 => ignored,
+            _ => true,
+        };
+        // A plain-function benchmark logs its hit from inside the benchmarked
+        // function: with zero samples in effect it is never called, so such
+        // benchmarks are left out on both sides.
+        let zero = |k: &RCase| {
+            let e = k.effective(&default);
+            e.sample_count == Some(0) || e.sample_size == Some(0) || e.max_time_ns == Some(0)
+        };
+        let unjudged: std::collections::BTreeSet<u32> = cases.iter().filter(|k| zero(k)).map(|k| k.uid).collect();
+        let expect: std::collections::BTreeSet<u32> = cases.iter().filter(|k| runs(k.effective(&default).ignore.unwrap_or(false)) && !unjudged.contains(&k.uid)).map(|k| k.uid).collect();
+        // A benchmark whose body never calls the Bencher still counts as run
+        // (the hit is logged by the body itself).
+        let got: std::collections::BTreeSet<u32> = run.hits.iter().map(|h| h.0).filter(|u| !unjudged.contains(u)).collect();
+        if got != expect {
+            let name = |uid: &u32| cases.iter().find(|k| k.uid == *uid).map(|k| k.path_str()).unwrap_or_else(|| uid.to_string());
+            let missing: Vec<String> = expect.difference(&got).map(name).collect();
+            let extra: Vec<String> = got.difference(&expect).map(name).collect();
+            return Verdict::fail(
+                "macro:ignore-flag",
+                format!("with {:?}: did not run {missing:?}, ran unexpectedly {extra:?}\nprogram: {}", c.mode, progs_dir().join(format!("benches/p{}.rs", c.program)).display()),
+            );
+        }
+        let ignored_some = cases.iter().any(|k| k.effective(&default).ignore.unwrap_or(false));
+        classify(format!("flag={flag}"));
+        Verdict::pass(ignored_some)
+    });
+}
+
